@@ -7,3 +7,4 @@ import Vise.State
 import Vise.Render
 import Vise.Vm
 import Vise.Engine
+import Vise.Db
